@@ -5,8 +5,10 @@ import ActixNet.Lemmas.Counter
 Property theorems only.  The model (`Model/Counter.lean`) computes `inc`/`dec`/`available` with the
 kernels that `tools/extract.py` regenerates from `actix-utils/src/counter.rs` on every run, so the
 statements below are about the comparisons that are in the source *now*.  All statements hold for
-every capacity (0 included) and every history of applicable operations
-(`run (init cap) ops = some (s, os)`: `s` is the state after `ops`, `os` the observations).
+every capacity (0 included) and every history of applicable operations `acquire h | drop g |
+available h w | clone h | total h | dropHandle h | debug h | debugGuard g`
+(`run (init cap) ops = some (s, os)`: `s` is the state after `ops`, `os` the observations); `acquire` is
+never refused, so histories go above the capacity.
 
 The reference notions are kernel-free: "number of live guards" is `s.guards.length` (a guard id is
 appended by `acquire` and erased by `drop`), and `specOf cap ops` computes from the history alone the
@@ -44,6 +46,73 @@ theorem total_eq_live (cap : Nat) (ops : List Op) (s s' : Sys) (os : List Obs) (
 
 example : (run (init 0) [.acquire 0, .clone 0, .acquire 1, .drop 0, .total 1]).map (·.2) =
     some [.guard 0, .handle 1, .guard 1, .dropped none, .total 1] := by decide
+
+/-- **`Counter::get` never refuses and every guard counts — also at and above the capacity** (the
+counter only gates through `available`): through any live handle a guard is handed out, and the count
+the counter keeps afterwards is the number of live guards, one more than before. -/
+theorem acquire_always_counts (cap : Nat) (ops : List Op) (s : Sys) (os : List Obs) (h : Nat)
+    (hr : run (init cap) ops = some (s, os)) (hh : s.hasHandle h = true) :
+    ∃ s', step s (.acquire h) = some (s', .guard s.nextGuard) ∧ s'.guards.length = s.guards.length + 1 ∧
+      s'.ctr.count = s'.guards.length ∧ s'.ctr.capacity = cap := by
+  obtain ⟨h1, h2, _, _⟩ := rel_reach hr
+  refine ⟨{ s with ctr := s.ctr.inc, guards := s.guards ++ [s.nextGuard], nextGuard := s.nextGuard + 1 }, ?_, ?_, ?_, ?_⟩
+  · simp only [step, hh, if_true]
+  · simp
+  · simp [inc_eq, h2]
+  · simp [inc_eq, h1]
+
+/-- three guards with capacity 1: all are counted, the gate stays shut (and nobody is woken) until the
+last one goes; capacity 0: guards are counted all the same and the gate never opens -/
+example : (run (init 1) [.acquire 0, .acquire 0, .acquire 0, .total 0, .available 0 2, .drop 2, .total 0,
+      .available 0 3, .drop 0, .available 0 3, .drop 1, .available 0 3]).map (·.2) =
+    some [.guard 0, .guard 1, .guard 2, .total 3, .avail false, .dropped none, .total 2, .avail false,
+      .dropped none, .avail false, .dropped (some 3), .avail true] := by decide
+example : (run (init 0) [.acquire 0, .acquire 0, .total 0, .drop 0, .drop 1, .total 0, .available 0 1]).map (·.2) =
+    some [.guard 0, .guard 1, .total 2, .dropped none, .dropped none, .total 0, .avail false] := by decide
+
+/-- **The count is shared by all clones**: which live handle an operation goes through is immaterial. -/
+theorem clones_share (s : Sys) (h h' : Nat) (w : WakerId) (hh : s.hasHandle h = true) (hh' : s.hasHandle h' = true) :
+    step s (.available h w) = step s (.available h' w) ∧ step s (.total h) = step s (.total h') ∧
+    step s (.acquire h) = step s (.acquire h') ∧ step s (.debug h) = step s (.debug h') := by
+  simp [step, hh, hh']
+
+example : (run (init 1) [.clone 0, .acquire 1, .available 0 2, .total 0, .total 1, .drop 0]).map (·.2) =
+    some [.handle 1, .guard 0, .avail false, .total 1, .total 1, .dropped (some 2)] := by decide
+
+/-- Dropping a `Counter` handle changes nothing but the set of handles: the guards stay alive and
+counted, the parked waker stays registered (so `release_wakes`, which holds for every history, also
+covers histories in which the handle that was asked has been dropped). -/
+theorem handle_drop_changes_nothing_else (s s' : Sys) (h : Nat) (o : Obs) (hs : step s (.dropHandle h) = some (s', o)) :
+    s'.ctr = s.ctr ∧ s'.guards = s.guards ∧ s'.hasHandle h = false ∧
+    (∀ h', h' ≠ h → s'.hasHandle h' = s.hasHandle h') := by
+  simp only [step] at hs; split at hs
+  · simp only [Option.some.injEq, Prod.mk.injEq] at hs; obtain ⟨hs, _⟩ := hs; subst hs
+    refine ⟨rfl, rfl, by simp [Sys.hasHandle], ?_⟩
+    intro h' hne
+    simp only [Sys.hasHandle, List.contains_cons]
+    have : (h' == h) = false := by simpa using hne
+    simp [this]
+  · simp at hs
+
+example : (run (init 1) [.acquire 0, .clone 0, .available 0 3, .dropHandle 0, .total 1, .drop 0, .available 1 2]).map (·.2) =
+    some [.guard 0, .handle 1, .avail false, .handleDropped, .total 1, .dropped (some 3), .avail true] := by decide
+example : (run (init 1) [.dropHandle 0, .total 0]) = none := by decide
+
+/-- `Debug` of a `Counter` handle or of a `CounterGuard` shows the number of live guards and the
+capacity, and changes nothing. -/
+theorem debug_shows_live (cap : Nat) (ops : List Op) (s s' : Sys) (os : List Obs) (op : Op) (b : Bool) (n c : Nat)
+    (hr : run (init cap) ops = some (s, os)) (hop : (∃ h, op = .debug h) ∨ ∃ g, op = .debugGuard g)
+    (hs : step s op = some (s', .debug b n c)) : n = s.guards.length ∧ c = cap ∧ s' = s := by
+  obtain ⟨h1, h2, _, _⟩ := rel_reach hr
+  rcases hop with ⟨h, rfl⟩ | ⟨g, rfl⟩ <;>
+  · simp only [step] at hs; split at hs
+    · simp only [Option.some.injEq, Prod.mk.injEq, Obs.debug.injEq] at hs
+      obtain ⟨hs, _, hn, hc⟩ := hs
+      exact ⟨by omega, by omega, hs.symm⟩
+    · simp at hs
+
+example : (run (init 2) [.acquire 0, .acquire 0, .acquire 0, .debug 0, .debugGuard 1]).map (·.2) =
+    some [.guard 0, .guard 1, .guard 2, .debug false 3 2, .debug true 3 2] := by decide
 
 /-- the reference's live count is the number of live guards (so `specOf` may be read as "the history") -/
 theorem spec_live_eq (cap : Nat) (ops : List Op) (s : Sys) (os : List Obs)
